@@ -10,16 +10,19 @@ MANIFEST = dict(
     design_ref="DESIGN.md §6 C03",
     text="Coq theorems (coq/Props/C03.v): per-operation COMPLETENESS - for every configuration, world and covered state, "
          "kernel_op + read_batch + grouping + emit deliver exactly the contract (up to adjacent duplicates) for touch, write, "
-         "chmod (file, directory), unlink, mkdir, rmdir, file renames (inside/in/out/replacing) and directory renames onto a free "
-         "name incl. synthetic events in walk order (C03_contract_*), tied to the pipeline LTS (C03_pipeline_tie); SHAPE laws of "
+         "chmod (file, directory), unlink, mkdir, rmdir, file renames (inside/in/out/replacing), directory renames onto a free "
+         "name incl. synthetic events in walk order, and a directory of the tree renamed over an empty directory of the tree "
+         "(C03_contract_rename_dir_replacing, under the synchronisation invariant RSync of C02: moved + parents modified + "
+         "synthetic moved + DirModified of the replaced directory from its IN_ATTRIB; _unwatched: the replaced directory has no "
+         "watch of its own) (C03_contract_*), tied to the pipeline "
+         "LTS (C03_pipeline_tie); SHAPE laws of "
          "emit for every item (C03_flavour, C03_synthetic_only_descendants via C14, C03_moved_pair_paths/_cookie, "
          "C03_parent_modified); the unrestricted history-level soundness is REFUTED on the model for the code before the repairs "
          "(C03_sound_refuted_phantom = F10 with c_fix_moveout off, C03_sound_pinned_refuted_f10e = F10e with c_fix_relabel off) "
          "and the same histories are sound on the current code (C03_phantom_repaired, C03_nested_moveout_repaired, "
          "C03_f10e_repaired); for the current code: a forgotten descriptor produces no event, a departed directory's watches "
          "are forgotten, no raw event below its former path (C03_forgotten_descriptor_no_event, C03_moveout_forgets, "
-         "C03_no_phantom_after_moveout); history-level soundness of the current code and directory-replaces-directory stay "
-         "stated Definitions. "
+         "C03_no_phantom_after_moveout); history-level soundness of the current code stays a stated Definition. "
          "Pipeline model in lock-step against the real observer on the real kernel (see C01); completeness: in "
          "one-at-a-time histories the events delivered for each operation must equal the per-operation contract written "
          "from the property text; soundness: in arbitrary (also unpaced) histories every delivered event must be explained "
